@@ -2203,6 +2203,13 @@ PIP_Solution_Node::row_sign(const Row& x,
       sign = NEGATIVE;
     }
   }
+  // The parameters are non-negative: a row with non-positive coefficients
+  // is (strictly) negative for all parameter values only if its constant
+  // term is negative; otherwise it evaluates to zero when all the
+  // parameters it mentions are zero.
+  if (sign == NEGATIVE && x.get(0) >= 0) {
+    return MIXED;
+  }
   return sign;
 }
 
